@@ -40,7 +40,7 @@ TRUSTED = [
 ]
 RULE = ("cases: per implemented (class,type): schema-driven values at empty/maximal/high-bit/zero-count and random, with and without origin; "
         "octet strings = valid specimens + mutations + random, decoded as every kind of type incl. unknown codes; distinct = distinct canonical case")
-CASE_TIMEOUT = 30.0
+CASE_TIMEOUT = 600.0   # the dispatch/history cases run child interpreters; the box is shared
 MODEL_MAX_WIRE = 1500
 
 ORIGINS = [[b"example", b""], [b"Example", b"COM", b""], [b"a", b"b", b"c", b"d", b"e", b""], [b"x" * 63, b"y" * 63, b""], [b""]]
@@ -201,6 +201,8 @@ def T():
 
 def model_has(rdclass, rdtype):
     t = T().lookup(rdclass, rdtype)
+    if t is not None and t.get("from_snapshot"):
+        return False      # translation failed closed for this type: oracle only
     return t is None or t["kind"] == "schema" or (t["kind"] == "hand" and t["hand"] in TR.COQ_HAND)
 
 
@@ -291,7 +293,7 @@ def dec_case(cl, ty, wire, cur, rdlen, o):
 
 
 def enc_case(t, cl, vals, o):
-    op = 1 if t["kind"] == "schema" or t.get("hand") in TR.COQ_HAND else 11
+    op = 1 if (t["kind"] == "schema" and not t.get("from_snapshot")) or t.get("hand") in TR.COQ_HAND else 11
     return "enc", [op, cl, t["rdtype"], vals, o]
 
 
@@ -342,7 +344,7 @@ def cases(ctx):
             vals, o = specimen(rng, t)
             bad = break_value(rng, t, vals)
             if bad is not None:
-                yield "enc-bad", [1, real_class(t), t["rdtype"], bad, o]
+                yield "enc-bad", [11 if t.get("from_snapshot") else 1, real_class(t), t["rdtype"], bad, o]
         if not specimens:
             continue
         # ---- octets -> record
@@ -638,11 +640,32 @@ def history_parent(case):
     import json
     import subprocess
 
-    p = subprocess.run([sys.executable, "-c", HISTORY_CHILD], input=json.dumps(case[1]).encode(), stdout=subprocess.PIPE,
-                       stderr=subprocess.PIPE, timeout=120, env=dict(os.environ, PYTHONPATH=lib.REPO))
-    if p.returncode != 0:
-        return Err(900, "history child failed: " + p.stderr.decode()[-300:])
-    return json.loads(p.stdout.decode())
+    p = _run_child([sys.executable, "-c", HISTORY_CHILD], json.dumps(case[1]).encode())
+    if isinstance(p, Err):
+        return p
+    return json.loads(p)
+
+
+def _run_child(cmd, data):
+    """run a child interpreter; a child that cannot be run at all (timeout on the shared box, killed)
+    is retried, and then reported as unavailable (901) - NOT as a violation; a child that fails with
+    a Python error (900) is one"""
+    import subprocess
+
+    last = ""
+    for attempt, tmo in enumerate((300, 900)):
+        try:
+            p = subprocess.run(cmd, input=data, stdout=subprocess.PIPE, stderr=subprocess.PIPE, timeout=tmo, env=dict(os.environ, PYTHONPATH=lib.REPO))
+        except subprocess.TimeoutExpired:
+            last = "timeout"
+            continue
+        if p.returncode == 0:
+            return p.stdout.decode()
+        if p.returncode < 0:      # killed by a signal (OOM on the shared box): retry
+            last = f"signal {-p.returncode}"
+            continue
+        return Err(900, "child failed: " + p.stderr.decode()[-300:])
+    return Err(901, "child interpreter unavailable: " + last)
 
 
 def dispatch_parent(case):
@@ -650,11 +673,10 @@ def dispatch_parent(case):
     import json
     import subprocess
 
-    p = subprocess.run([sys.executable, os.path.abspath(__file__), "--dispatch-child"], input=json.dumps(lib.jsonable(case)).encode(),
-                       stdout=subprocess.PIPE, stderr=subprocess.PIPE, timeout=300, env=dict(os.environ, PYTHONPATH=lib.REPO))
-    if p.returncode != 0:
-        return Err(900, "dispatch child failed: " + p.stderr.decode()[-300:])
-    return lib.unjson(json.loads(p.stdout.decode()))
+    p = _run_child([sys.executable, os.path.abspath(__file__), "--dispatch-child"], json.dumps(lib.jsonable(case)).encode())
+    if isinstance(p, Err):
+        return p
+    return lib.unjson(json.loads(p))
 
 
 def dispatch_child():
@@ -730,6 +752,9 @@ def oracle_history(ctx, kind, case, out):
     """every implemented (class, type) must be served by its implementation, whatever was looked
     up before (otherwise records of that type stop being equal to their decoded form)"""
     if isinstance(out, Err):
+        if out.code == 901:
+            ctx.count("child-unavailable")
+            return []
         return [{"kind": "history:child", "what": "history child process failed: " + out.text}]
     tab = T()
     F = []
@@ -748,6 +773,9 @@ def oracle_dispatch(ctx, kind, case, out):
     F = []
     _, mode, items = case
     if isinstance(out, Err):
+        if out.code == 901:
+            ctx.count("child-unavailable")
+            return []
         return [{"kind": "dispatch:child", "what": "dispatch child process failed: " + out.text, "mode": mode}]
     what = ["decoded with a different class than the implementation of this (class,type)", "decoded record is not equal to the original",
             "re-encoding differs from the first encoding", "decoded field values differ from the original ones"]
